@@ -24,36 +24,25 @@ Proof. intros nodes root t init lit r Ht Hc. exact (compile_own_refs nodes init 
 
 Lemma C20_frame_full_proof :
   forall nodes root t init lit r,
-    tree_of nodes root = Some t -> ~ Known_C05_K1 init t -> ~ Known_C05_K2 t ->
+    tree_of nodes root = Some t -> ~ Known_C05_K2 t ->
     compile init lit t = Ok r -> own_code init (code_of_compile r) = true.
 Proof.
-  intros nodes root t init lit r Ht Hk1 Hk2 Hc.
-  apply (compile_own_code nodes init lit t r (tree_of_in nodes root t Ht)); [| | exact Hc].
-  - split.
-    + destruct (drops_arms t) eqn:E; [exfalso; apply Hk2; exact E | reflexivity].
-    + destruct (has_empty_body t) eqn:E; [exfalso; apply Hk1; left; exact E | reflexivity].
-  - destruct (empty_after_end init t) eqn:E; [exfalso; apply Hk1; right; exact E | reflexivity].
+  intros nodes root t init lit r Ht Hk2 Hc.
+  apply (compile_own_code nodes init lit t r (tree_of_in nodes root t Ht)); [| exact Hc].
+  unfold tree_good. destruct (drops_arms t) eqn:E; [exfalso; apply Hk2; exact E | reflexivity].
 Qed.
 
 Lemma C20_relocation_full_proof :
-  forall t init lit,
-    ~ Known_C20_K1 init t ->
-    compile init lit t = shRes (shR init) (compile empty_init lit t).
-Proof.
-  intros t init lit Hk. apply compile_relocates.
-  destruct (empty_after_end init t) eqn:E; [exfalso; apply Hk; exact E | reflexivity].
-Qed.
+  forall t init lit, compile init lit t = shRes (shR init) (compile empty_init lit t).
+Proof. intros t init lit. apply compile_relocates. Qed.
 
 Lemma C20_relocated_full_proof : forall nodes root t init lit r r0,
   tree_of nodes root = Some t ->
-  ~ Known_C05_K1 init t -> ~ Known_C05_K2 t ->
+  ~ Known_C05_K2 t ->
   compile init lit t = Ok r -> compile empty_init lit t = Ok r0 ->
   relocated init (code_of_compile r0) (code_of_compile r) = true.
 Proof.
-  intros nodes root t init lit r r0 Ht Hk1 Hk2 Hc Hc0.
+  intros nodes root t init lit r r0 Ht Hk2 Hc Hc0.
   apply (compile_relocated nodes init lit t r r0 (tree_of_in nodes root t Ht)); auto.
-  - split.
-    + destruct (drops_arms t) eqn:E; [exfalso; apply Hk2; exact E | reflexivity].
-    + destruct (has_empty_body t) eqn:E; [exfalso; apply Hk1; left; exact E | reflexivity].
-  - destruct (empty_after_end init t) eqn:E; [exfalso; apply Hk1; right; exact E | reflexivity].
+  unfold tree_good. destruct (drops_arms t) eqn:E; [exfalso; apply Hk2; exact E | reflexivity].
 Qed.
